@@ -10,7 +10,7 @@ theorem R.of_anchorOnly {P : Nat} {a a' : AState} {s s' : Sess} (r : R P a s) (a
     (hsrc : a'.src = a.src) (hcur : a'.cur = a.cur) (hlp : a'.lastp = none) (hslp : s'.lastp = none)
     (wf : WF s'.b) (aok : AnchOK s'.b) (nfa : NoFpNoAnchor s'.b)
     (anch : s'.b.hasfp = true → s'.b.absAnchor = a'.anchor ∧ (a'.anchor ≠ none → s'.b.nanchor = a'.nanchor))
-    (aanch : ∀ A, a'.anchor = some A → A ≤ a'.cur ∧ 1 ≤ a'.nanchor) : R P a' s' := by
+    (aanch : ∀ A, a'.anchor = some A → 1 ≤ a'.nanchor) : R P a' s' := by
   obtain ⟨m1, m2, m3, m4, m5⟩ := ao.same
   have fr := ao.frame
   refine ⟨wf, ao.pg r.pg, aok, nfa, by rw [m5, r.src, hsrc], by rw [m3, m2, r.cur, hcur],
@@ -51,21 +51,17 @@ theorem sim_raiseAnchor (P : Nat) (o : Nat) : SimStep P (.raiseAnchor o) := by
   have hb : (s.step (.raiseAnchor o)).2.b = raiseAnchor s.b o := rfl
   have hfp : (raiseAnchor s.b o).hasfp = s.b.hasfp := ao.frame.hasfp
   -- the abstract side
-  have hA : ∀ A, (aRaise a o).anchor = some A → A ≤ (aRaise a o).cur ∧ 1 ≤ (aRaise a o).nanchor := by
+  have hA : ∀ A, (aRaise a o).anchor = some A → 1 ≤ (aRaise a o).nanchor := by
     intro A hA
     cases han : a.anchor with
     | none => rw [aRaise_none a o han] at hA ⊢; exact r.aanch A hA
     | some A0 =>
-      obtain ⟨x1, x2⟩ := r.aanch A0 han
+      have x2 := r.aanch A0 han
       by_cases hAo : A0 = o
       · by_cases hlast : a.nanchor - 1 = 0
         · rw [aRaise_last a o A0 han hAo hlast] at hA; cases hA
-        · rw [aRaise_more a o A0 han hAo hlast] at hA ⊢
-          have : A = A0 := by
-            have h2 : a.anchor = some A := hA
-            rw [han] at h2; cases h2; rfl
-          rw [this]
-          exact ⟨x1, by show 1 ≤ a.nanchor - 1; omega⟩
+        · rw [aRaise_more a o A0 han hAo hlast]
+          show 1 ≤ a.nanchor - 1; omega
       · rw [aRaise_miss a o A0 han hAo] at hA ⊢; exact r.aanch A hA
   have hsrc : (aRaise a o).src = a.src ∧ (aRaise a o).cur = a.cur := by
     cases han : a.anchor with
@@ -155,29 +151,27 @@ theorem aSetAnchor_right (a : AState) (o A : Nat) (h : a.anchor = some A) (hgt :
 
 /-- the buffer-level content of `sim_setAnchor`, shared with `SetStableAnchor` -/
 theorem setAnchor_sim' {P : Nat} {a : AState} {s : Sess} (r : R P a s) (o : Nat) (st : Option Nat)
-    (hle : o ≤ a.cur) (hbs : s.b.hasfp = true → s.b.base ≤ o) :
+    (hwin : s.b.hasfp = true → o ≤ s.b.base + s.b.n) (hbs : s.b.hasfp = true → s.b.base ≤ o) :
     (setAnchor s.b o).1 = .ok ∧
     R P { aSetAnchor a o with lastp := none } { b := (setAnchor s.b o).2, lastp := none, stable := st } ∧
     (∃ A', (aSetAnchor a o).anchor = some A') := by
   have hp := r.wf.hpos
   -- abstract side: the new anchor record is fine
   have habs : (aSetAnchor a o).src = a.src ∧ (aSetAnchor a o).cur = a.cur ∧
-      (∀ A, (aSetAnchor a o).anchor = some A → A ≤ a.cur ∧ 1 ≤ (aSetAnchor a o).nanchor) ∧
+      (∀ A, (aSetAnchor a o).anchor = some A → 1 ≤ (aSetAnchor a o).nanchor) ∧
       (∃ A', (aSetAnchor a o).anchor = some A') := by
     cases han : a.anchor with
     | none =>
       rw [aSetAnchor_none a o han]
-      exact ⟨rfl, rfl, (fun A hA => by cases hA; exact ⟨hle, Nat.le_refl _⟩), ⟨o, rfl⟩⟩
+      exact ⟨rfl, rfl, (fun A _ => Nat.le_refl _), ⟨o, rfl⟩⟩
     | some A0 =>
-      obtain ⟨x1, x2⟩ := r.aanch A0 han
+      have x2 := r.aanch A0 han
       rcases Nat.lt_trichotomy o A0 with h | h | h
       · rw [aSetAnchor_left a o A0 han h]
-        exact ⟨rfl, rfl, (fun A hA => by cases hA; exact ⟨hle, Nat.le_refl _⟩), ⟨o, rfl⟩⟩
+        exact ⟨rfl, rfl, (fun A _ => Nat.le_refl _), ⟨o, rfl⟩⟩
       · rw [aSetAnchor_same a o A0 han h]
-        refine ⟨rfl, rfl, (fun A hA => ?_), ⟨A0, han⟩⟩
-        have h2 : a.anchor = some A := hA
-        rw [han] at h2; cases h2
-        exact ⟨x1, by show 1 ≤ a.nanchor + 1; omega⟩
+        refine ⟨rfl, rfl, (fun A _ => ?_), ⟨A0, han⟩⟩
+        show 1 ≤ a.nanchor + 1; omega
       · rw [aSetAnchor_right a o A0 han h]
         exact ⟨rfl, rfl, (fun A hA => r.aanch A hA), ⟨A0, han⟩⟩
   obtain ⟨hs1, hs2, hs3, hs4⟩ := habs
@@ -187,21 +181,20 @@ theorem setAnchor_sim' {P : Nat} {a : AState} {s : Sess} (r : R P a s) (o : Nat)
     refine ⟨rfl, ?_, hs4⟩
     exact r.of_anchorOnly (s' := { b := s.b, lastp := none, stable := st }) (a' := { aSetAnchor a o with lastp := none })
       ⟨s.b.anchor, s.b.nanchor, rfl⟩ hs1 hs2 rfl rfl r.wf r.aok r.nfa (fun hh => by rw [hf] at hh; cases hh)
-      (by intro A hA; rw [hs2]; exact hs3 A hA)
+      (by intro A hA; exact hs3 A hA)
   | true =>
     obtain ⟨r1, r2⟩ := r.anch hf
     -- the requested offset is inside the window
     have hbase : s.b.base ≤ o := hbs hf
-    have hin : o ≤ s.b.base + s.b.n := by have := hle; rw [← r.cur] at this; omega
-    have hpos : o - s.b.base ≤ s.b.pos := by have := hle; rw [← r.cur] at this; omega
+    have hin : o ≤ s.b.base + s.b.n := hwin hf
     cases han : a.anchor with
     | none =>
       have hcn : s.b.anchor = none := (absAnchor_eq_none s.b).mp (by rw [r1, han])
       rw [setAnchor_new s.b o hf hbase hin (Or.inl hcn)]
       refine ⟨rfl, ?_, hs4⟩
       refine r.of_anchorOnly (s' := { b := { s.b with anchor := some (o - s.b.base), nanchor := 1 }, lastp := none, stable := st })
-        (a' := { aSetAnchor a o with lastp := none }) ⟨_, _, rfl⟩ hs1 hs2 rfl rfl ?_ ?_ ?_ ?_ (by intro A hA; rw [hs2]; exact hs3 A hA)
-      · exact AnchorOnly.wf ⟨_, _, rfl⟩ r.wf (by intro x hx; simp at hx; omega)
+        (a' := { aSetAnchor a o with lastp := none }) ⟨_, _, rfl⟩ hs1 hs2 rfl rfl ?_ ?_ ?_ ?_ (by intro A hA; exact hs3 A hA)
+      · exact AnchorOnly.wf' ⟨_, _, rfl⟩ r.wf (by intro x hx; simp at hx; omega)
       · intro x _; exact Nat.le_refl _
       · intro hh; rw [hf] at hh; cases hh
       · intro _
@@ -217,8 +210,8 @@ theorem setAnchor_sim' {P : Nat} {a : AState} {s : Sess} (r : R P a s) (o : Nat)
       · rw [setAnchor_new s.b o hf hbase hin (Or.inr ⟨a0, hca, by omega⟩)]
         refine ⟨rfl, ?_, hs4⟩
         refine r.of_anchorOnly (s' := { b := { s.b with anchor := some (o - s.b.base), nanchor := 1 }, lastp := none, stable := st })
-          (a' := { aSetAnchor a o with lastp := none }) ⟨_, _, rfl⟩ hs1 hs2 rfl rfl ?_ ?_ ?_ ?_ (by intro A hA; rw [hs2]; exact hs3 A hA)
-        · exact AnchorOnly.wf ⟨_, _, rfl⟩ r.wf (by intro x hx; simp at hx; omega)
+          (a' := { aSetAnchor a o with lastp := none }) ⟨_, _, rfl⟩ hs1 hs2 rfl rfl ?_ ?_ ?_ ?_ (by intro A hA; exact hs3 A hA)
+        · exact AnchorOnly.wf' ⟨_, _, rfl⟩ r.wf (by intro x hx; simp at hx; omega)
         · intro x _; exact Nat.le_refl _
         · intro hh; rw [hf] at hh; cases hh
         · intro _
@@ -229,8 +222,8 @@ theorem setAnchor_sim' {P : Nat} {a : AState} {s : Sess} (r : R P a s) (o : Nat)
       · rw [setAnchor_same s.b o a0 hf hbase hin hca (by omega)]
         refine ⟨rfl, ?_, hs4⟩
         refine r.of_anchorOnly (s' := { b := { s.b with nanchor := s.b.nanchor + 1 }, lastp := none, stable := st })
-          (a' := { aSetAnchor a o with lastp := none }) ⟨s.b.anchor, _, rfl⟩ hs1 hs2 rfl rfl ?_ ?_ ?_ ?_ (by intro A hA; rw [hs2]; exact hs3 A hA)
-        · exact AnchorOnly.wf ⟨s.b.anchor, _, rfl⟩ r.wf (by intro x hx; exact r.wf.hanch x hx)
+          (a' := { aSetAnchor a o with lastp := none }) ⟨s.b.anchor, _, rfl⟩ hs1 hs2 rfl rfl ?_ ?_ ?_ ?_ (by intro A hA; exact hs3 A hA)
+        · exact AnchorOnly.wf' ⟨s.b.anchor, _, rfl⟩ r.wf (by intro x hx; exact r.wf.hanch x hx)
         · intro x _; show 1 ≤ s.b.nanchor + 1; omega
         · intro hh; rw [hf] at hh; cases hh
         · intro _
@@ -242,7 +235,7 @@ theorem setAnchor_sim' {P : Nat} {a : AState} {s : Sess} (r : R P a s) (o : Nat)
         refine ⟨rfl, ?_, hs4⟩
         refine r.of_anchorOnly (s' := { b := s.b, lastp := none, stable := st })
           (a' := { aSetAnchor a o with lastp := none }) ⟨s.b.anchor, s.b.nanchor, rfl⟩ hs1 hs2 rfl rfl r.wf r.aok r.nfa ?_
-          (by intro A hA; rw [hs2]; exact hs3 A hA)
+          (by intro A hA; exact hs3 A hA)
         intro _
         rw [aSetAnchor_right a o A0 han h]
         exact ⟨r1, r2⟩
@@ -253,7 +246,7 @@ theorem setAnchor_sim {P : Nat} {a : AState} {s : Sess} (r : R P a s) (o : Nat) 
     (setAnchor s.b o).1 = .ok ∧
     R P { aSetAnchor a o with lastp := none } { b := (setAnchor s.b o).2, lastp := none, stable := st } ∧
     (∃ A', (aSetAnchor a o).anchor = some A') := by
-  refine setAnchor_sim' r o st hv.1 (fun hf => ?_)
+  refine setAnchor_sim' r o st (fun _ => by have := hv.1; have := r.cur; have := r.wf.hpos; omega) (fun hf => ?_)
   obtain ⟨r1, _⟩ := r.anch hf
   rcases hv.2 with h | ⟨A, hA, hle⟩
   · rw [h, ← r.cur]; omega
@@ -277,11 +270,11 @@ theorem valid_anchor_base {P : Nat} {a : AState} {s : Sess} (r : R P a s) (o : N
 
 /-- `SetAnchor` at an offset of the window at or before the cursor simulates the specification step
     (this is more than the contract `Valid` grants: also offsets left of the active anchor) -/
-theorem sim_setAnchor' (P : Nat) (o : Nat) (a : AState) (s : Sess) (r : R P a s) (hle : o ≤ a.cur)
-    (hbs : s.b.hasfp = true → s.b.base ≤ o) :
+theorem sim_setAnchor' (P : Nat) (o : Nat) (a : AState) (s : Sess) (r : R P a s)
+    (hwin : s.b.hasfp = true → o ≤ s.b.base + s.b.n) (hbs : s.b.hasfp = true → s.b.base ≤ o) :
     obsOf (.setAnchor o) (s.step (.setAnchor o)).1 (s.step (.setAnchor o)).2 = (specStep a (.setAnchor o)).1 ∧
     R P (specStep a (.setAnchor o)).2 (s.step (.setAnchor o)).2 := by
-  obtain ⟨h1, h2, _⟩ := setAnchor_sim' r o none hle hbs
+  obtain ⟨h1, h2, _⟩ := setAnchor_sim' r o none hwin hbs
   have hcur := h2.cur
   refine ⟨?_, h2.stable_irrel rfl rfl⟩
   show (⟨(setAnchor s.b o).1, [], (setAnchor s.b o).2.base + (setAnchor s.b o).2.pos⟩ : Obs) = ⟨.ok, [], a.cur⟩
@@ -299,16 +292,15 @@ theorem sim_setAnchor' (P : Nat) (o : Nat) (a : AState) (s : Sess) (r : R P a s)
   rw [hc]
 
 theorem sim_setAnchor (P : Nat) (o : Nat) : SimStep P (.setAnchor o) := fun a s r hv =>
-  sim_setAnchor' P o a s r hv.1 (valid_anchor_base r o hv)
+  sim_setAnchor' P o a s r (fun _ => by have := hv.1; have := r.cur; have := r.wf.hpos; omega) (valid_anchor_base r o hv)
 
 /-! ### SetStableAnchor -/
 
 /-- rebasing the window on the anchor (the `memmove` of `esl_buffer_SetStableAnchor`) keeps the simulation -/
 theorem R.rebase {P : Nat} {a : AState} {b1 : Buf} {st st' : Option Nat} (r1 : R P a { b := b1, lastp := none, stable := st })
-    (hf : b1.hasfp = true) (a1 : Nat) (ha1 : b1.anchor = some a1) :
+    (hf : b1.hasfp = true) (a1 : Nat) (ha1 : b1.anchor = some a1) (hle : a1 ≤ b1.pos) :
     R P a { b := dropFront { b1 with anchor := some 0 } a1, lastp := none, stable := st' } := by
   have w1 : WF b1 := r1.wf
-  have hle : a1 ≤ b1.pos := w1.hanch a1 ha1
   have hp : b1.pos ≤ b1.n := w1.hpos
   have hwf0 : WF { b1 with anchor := some 0 } :=
     ⟨w1.hwin, w1.hpos, by intro x hx; simp at hx; omega, w1.hps, w1.heof, w1.hnofp⟩
@@ -322,7 +314,7 @@ theorem R.rebase {P : Nat} {a : AState} {b1 : Buf} {st st' : Option Nat} (r1 : R
   have hanch := r1.anch hf
   have haok : AnchOK b1 := r1.aok
   have hlast : (none : Option Nat).map (b1.base + ·) = a.lastp := r1.lastp
-  refine ⟨dropFront_wf hwf0 a1 hle (by intro x hx; simp at hx; omega), ?_, ?_, ?_, hsrc, ?_, hps, hmode, ?_, ?_, r1.aanch,
+  refine ⟨dropFront_wf hwf0 a1 hle (by intro x hx; simp at hx; show x + a1 ≤ b1.n; omega), ?_, ?_, ?_, hsrc, ?_, hps, hmode, ?_, ?_, r1.aanch,
     ?_, r1.lastp_le⟩
   · -- page guarantee
     show (dropFront { b1 with anchor := some 0 } a1).pagesize ≤ (dropFront { b1 with anchor := some 0 } a1).n -
@@ -350,11 +342,57 @@ theorem R.rebase {P : Nat} {a : AState} {b1 : Buf} {st st' : Option Nat} (r1 : R
   · show (none : Option Nat).map _ = a.lastp
     rw [← hlast]; rfl
 
-theorem sim_setStableAnchor' (P : Nat) (o : Nat) (a : AState) (s : Sess) (r : R P a s) (hle : o ≤ a.cur)
-    (hbs : s.b.hasfp = true → s.b.base ≤ o) :
+/-- … and when the anchor is ahead of the cursor (b86a62d: `ndel = ESL_MIN(anchor, pos)`): the window is rebased on the cursor -/
+theorem R.rebase_ahead {P : Nat} {a : AState} {b1 : Buf} {st st' : Option Nat} (r1 : R P a { b := b1, lastp := none, stable := st })
+    (hf : b1.hasfp = true) (a1 : Nat) (ha1 : b1.anchor = some a1) (hgt : b1.pos < a1) :
+    R P a { b := dropFront { b1 with anchor := some (a1 - b1.pos) } b1.pos, lastp := none, stable := st' } := by
+  have w1 : WF b1 := r1.wf
+  have han : a1 ≤ b1.n := w1.hanch a1 ha1
+  have hp : b1.pos ≤ b1.n := w1.hpos
+  have hwf0 : WF { b1 with anchor := some (a1 - b1.pos) } :=
+    ⟨w1.hwin, w1.hpos, by intro x hx; simp at hx; show x ≤ b1.n; omega, w1.hps, w1.heof, w1.hnofp⟩
+  have fr := dropFront_frame { b1 with anchor := some (a1 - b1.pos) } b1.pos (Nat.le_refl _) hp
+  have av := dropFront_avail { b1 with anchor := some (a1 - b1.pos) } b1.pos (Nat.le_refl _) hp
+  have hpg : PG b1 := r1.pg
+  have hsrc : b1.src = a.src := r1.src
+  have hcur : b1.base + b1.pos = a.cur := r1.cur
+  have hps : P ≤ b1.pagesize := r1.ps
+  have hmode : b1.hasfp = false ↔ memMode b1.mode := r1.modefp
+  have hanch := r1.anch hf
+  have haok : AnchOK b1 := r1.aok
+  have hlast : (none : Option Nat).map (b1.base + ·) = a.lastp := r1.lastp
+  refine ⟨dropFront_wf hwf0 b1.pos (Nat.le_refl _) (by intro x hx; simp at hx; show x + b1.pos ≤ b1.n; omega), ?_, ?_, ?_, hsrc, ?_, hps,
+    hmode, ?_, ?_, r1.aanch, ?_, r1.lastp_le⟩
+  · show (dropFront { b1 with anchor := some (a1 - b1.pos) } b1.pos).pagesize ≤ (dropFront { b1 with anchor := some (a1 - b1.pos) } b1.pos).n -
+      (dropFront { b1 with anchor := some (a1 - b1.pos) } b1.pos).pos ∨ (dropFront { b1 with anchor := some (a1 - b1.pos) } b1.pos).rest = []
+    rw [av]
+    exact hpg
+  · intro x _
+    show 1 ≤ b1.nanchor
+    exact haok a1 ha1
+  · intro hh
+    have : (dropFront { b1 with anchor := some (a1 - b1.pos) } b1.pos).hasfp = b1.hasfp := rfl
+    rw [this, hf] at hh; cases hh
+  · have := fr.off
+    show (dropFront { b1 with anchor := some (a1 - b1.pos) } b1.pos).base + (dropFront { b1 with anchor := some (a1 - b1.pos) } b1.pos).pos = a.cur
+    rw [this]; exact hcur
+  · intro hh
+    have : (dropFront { b1 with anchor := some (a1 - b1.pos) } b1.pos).hasfp = b1.hasfp := rfl
+    rw [this, hf] at hh; cases hh
+  · intro _
+    show (dropFront { b1 with anchor := some (a1 - b1.pos) } b1.pos).absAnchor = a.anchor ∧ (a.anchor ≠ none → b1.nanchor = a.nanchor)
+    refine ⟨?_, hanch.2⟩
+    rw [← hanch.1]
+    simp only [Buf.absAnchor, dropFront, ha1, Option.map_some]
+    congr 1; omega
+  · show (none : Option Nat).map _ = a.lastp
+    rw [← hlast]; rfl
+
+theorem sim_setStableAnchor' (P : Nat) (o : Nat) (a : AState) (s : Sess) (r : R P a s)
+    (hwin : s.b.hasfp = true → o ≤ s.b.base + s.b.n) (hbs : s.b.hasfp = true → s.b.base ≤ o) :
     obsOf (.setStableAnchor o) (s.step (.setStableAnchor o)).1 (s.step (.setStableAnchor o)).2 = (specStep a (.setStableAnchor o)).1 ∧
     R P (specStep a (.setStableAnchor o)).2 (s.step (.setStableAnchor o)).2 := by
-  obtain ⟨h1, h2, A', hA'⟩ := setAnchor_sim' r o (s.step (.setStableAnchor o)).2.stable hle hbs
+  obtain ⟨h1, h2, A', hA'⟩ := setAnchor_sim' r o (s.step (.setStableAnchor o)).2.stable hwin hbs
   have hc : (aSetAnchor a o).cur = a.cur := by
     cases han : a.anchor with
     | none => rw [aSetAnchor_none a o han]
@@ -385,22 +423,35 @@ theorem sim_setStableAnchor' (P : Nat) (o : Nat) (a : AState) (s : Sess) (r : R 
       rw [hsa] at this; rw [this]; exact hf
     obtain ⟨q1, _⟩ := h2.anch hf1
     obtain ⟨a1, ha1, _⟩ := absAnchor_some (by rw [q1]; exact hA' : b1.absAnchor = some A')
-    have hle : a1 ≤ b1.pos := h2.wf.hanch a1 ha1
-    have e : setStableAnchor s.b o = (.ok, dropFront { b1 with anchor := some 0 } a1) := by
-      unfold setStableAnchor
-      simp only [hf, Bool.not_true, Bool.false_eq_true, if_false, hsa, ha1, hle, if_true]
-    have r2 := h2.rebase (st' := (s.step (.setStableAnchor o)).2.stable) hf1 a1 ha1
-    refine ⟨?_, ?_⟩
-    · show (⟨(setStableAnchor s.b o).1, [], (setStableAnchor s.b o).2.base + (setStableAnchor s.b o).2.pos⟩ : Obs) = ⟨.ok, [], a.cur⟩
-      rw [e]
-      have := r2.cur
-      simp only [] at this ⊢
-      rw [this, hc]
-    · refine r2.stable_irrel ?_ rfl
-      show (setStableAnchor s.b o).2 = _
-      rw [e]
+    by_cases hle : a1 ≤ b1.pos
+    · have e : setStableAnchor s.b o = (.ok, dropFront { b1 with anchor := some 0 } a1) := by
+        unfold setStableAnchor
+        simp only [hf, Bool.not_true, Bool.false_eq_true, if_false, hsa, ha1, hle, if_true]
+      have r2 := h2.rebase (st' := (s.step (.setStableAnchor o)).2.stable) hf1 a1 ha1 hle
+      refine ⟨?_, ?_⟩
+      · show (⟨(setStableAnchor s.b o).1, [], (setStableAnchor s.b o).2.base + (setStableAnchor s.b o).2.pos⟩ : Obs) = ⟨.ok, [], a.cur⟩
+        rw [e]
+        have := r2.cur
+        simp only [] at this ⊢
+        rw [this, hc]
+      · refine r2.stable_irrel ?_ rfl
+        show (setStableAnchor s.b o).2 = _
+        rw [e]
+    · have e : setStableAnchor s.b o = (.ok, dropFront { b1 with anchor := some (a1 - b1.pos) } b1.pos) := by
+        unfold setStableAnchor
+        simp only [hf, Bool.not_true, Bool.false_eq_true, if_false, hsa, ha1, hle]
+      have r2 := h2.rebase_ahead (st' := (s.step (.setStableAnchor o)).2.stable) hf1 a1 ha1 (by omega)
+      refine ⟨?_, ?_⟩
+      · show (⟨(setStableAnchor s.b o).1, [], (setStableAnchor s.b o).2.base + (setStableAnchor s.b o).2.pos⟩ : Obs) = ⟨.ok, [], a.cur⟩
+        rw [e]
+        have := r2.cur
+        simp only [] at this ⊢
+        rw [this, hc]
+      · refine r2.stable_irrel ?_ rfl
+        show (setStableAnchor s.b o).2 = _
+        rw [e]
 
 theorem sim_setStableAnchor (P : Nat) (o : Nat) : SimStep P (.setStableAnchor o) := fun a s r hv =>
-  sim_setStableAnchor' P o a s r hv.1 (valid_anchor_base r o hv)
+  sim_setStableAnchor' P o a s r (fun _ => by have := hv.1; have := r.cur; have := r.wf.hpos; omega) (valid_anchor_base r o hv)
 
 end EaselModel.Buffer
